@@ -8,6 +8,7 @@ import Continuum.Rel
 import Continuum.Mgr
 import Continuum.Lemmas.UowLive
 import Continuum.Spec.Links
+import Continuum.Props.C05Deep
 import Continuum.Activity
 import Continuum.Revert
 import Continuum.Trigger
@@ -251,6 +252,42 @@ def c05Rel (st_v : VTable TKey) (arows : List ARow) (before after : Live) (links
     | none => pure (true, [], true)
   | _ => none
 
+
+/-- lift a row of table `tid` to the table-tagged form -/
+def liftRow (tid : Nat) (r : VRow Key) : VRow TKey :=
+  { key := (tid, r.key), tx := r.tx, endTx := r.endTx, op := r.op, vals := r.vals, mods := r.mods }
+
+/-- the related versions version `w` shows for its relationship number `r` (registry: class table, relationship
+number, specification), by the relationship model of C04 on the version tables -/
+def shownBy (vt : VTable TKey) (arows : List ARow) (reg : List (Nat × Nat × String)) (w : VRow TKey) (r : Nat) :
+    List (VRow TKey) :=
+  match reg.find? (fun e => e.1 == w.key.1 && e.2.1 == r) with
+  | none => []
+  | some e =>
+    match e.2.2.splitOn ":" with
+    | ["o2m", ct, fk] =>
+      match parseNat ct, parseNat fk with
+      | some ct, some fk => (oneToMany (tableOf vt ct) fk w.key.2 w.tx).map (liftRow ct)
+      | _, _ => []
+    | ["m2m", rt, atb, lf] =>
+      match parseNat rt, parseNat atb, parseBool lf with
+      | some rt, some atb, some lf => (manyToMany (tableOf vt rt) arows atb lf w.key.2 w.tx).map (liftRow rt)
+      | _, _, _ => []
+    | ["m2o", pt, fk] =>
+      match parseNat pt, parseNat fk with
+      | some pt, some fk =>
+        let r0 : VRow Key := { key := w.key.2, tx := w.tx, endTx := w.endTx, op := w.op, vals := w.vals, mods := w.mods }
+        (manyToOne (tableOf vt pt) (fkOf fk r0) w.tx).toList.map (liftRow pt)
+      | _, _ => []
+    | _ => []
+
+def parseReg (s : String) : Option (List (Nat × Nat × String)) :=
+  (s.splitOn ";").mapM (fun e => match e.splitOn "/" with
+    | [t, r, spec] => do pure ((← parseNat t), (← parseNat r), spec)
+    | _ => none)
+
+def parsePaths (s : String) : Option (List Path) :=
+  (s.splitOn ",").mapM (fun p => (p.splitOn ".").mapM parseNat)
 
 /-! ## trigger level (C14) -/
 
@@ -567,6 +604,20 @@ def handle (st : DState) (toks : List String) : DState × Option String :=
     match parseNat tbl, parseKey link with
     | some tbl, some link => ({ st with c05LinksB := st.c05LinksB ++ [(tbl, link)] }, none)
     | _, _ => (st, bad)
+  | ["q05n", tid, pk, tx, reg, paths] =>
+    -- dotted paths: the log of versions the recursion reverts (`revertNL` over the relationship model) and
+    -- `C05.DeepHolds` on the implementation's rows after the revert; does not reset (a `q05` follows)
+    match parseNat tid, parseKey pk, parseNat tx, parseReg reg, parsePaths paths with
+    | some tid, some pk, some tx, some reg, some paths =>
+      match rowAt st.c05V (tid, pk) tx with
+      | some v =>
+        let depth := (paths.map List.length).foldl max 0 + 1
+        let res := revertNL (shownBy st.c05V st.arows reg) depth paths (st.c05Before, []) v
+        let deep := decideB (C05.DeepHolds st.c05After res.2)
+        let lvl2 := (res.2.filter (fun w => w.key != v.key)).length
+        (st, some s!"{deep} {res.2.length} {lvl2}")
+      | none => (st, bad)
+    | _, _, _, _, _ => (st, bad)
   | ["q05", tid, pk, tx, rels] =>
     match parseNat tid, parseKey pk, parseNat tx with
     | some tid, some pk, some tx =>
